@@ -24,7 +24,15 @@ EXTENDS ChannelTrace
 
 CONSTANTS CsvOpener,   \* to_self_delay the fixture imposes on the opener's own outputs
           CsvOther,    \* ... on the non-opener's own outputs
-          Thaw         \* lease expiry height of the fixture (script-enforced lease type only)
+          Thaw,        \* lease expiry height of the fixture (script-enforced lease type only)
+          LeaseJusticeQuirk
+                       \* named deviation of the code (finding, C04): FALSE = intended behaviour.
+                       \* TRUE = as contractcourt/breach_arbitrator.go does today: on a script-enforced
+                       \* lease channel whose lease has a real expiry, the victim's own to_remote output
+                       \* (victim = channel initiator) carries `<expiry> OP_CLTV`, but breachedOutput
+                       \* reports no required lock time and the justice tx is built with nLockTime 0 -
+                       \* that input, and with it the spend-all and the commit-outputs justice
+                       \* transactions, are invalid
 
 Range(s) == {s[i] : i \in 1..Len(s)}
 SumOver(S, f(_)) ==
@@ -161,7 +169,7 @@ JRecognised == IsJ =>
   /\ Last.x >= 1 /\ Last.x + 1 <= Len(disk[Jp].revlog)
   /\ Jc.h = Last.x
   /\ Last.hint = Last.x
-  /\ Last.txid = 1
+  /\ Last.err = "" => Last.txid = 1
   /\ Last.err = (IF Last.y = 0 /\ Last.noamt = 1 THEN "missing" ELSE "")
 JGood == IsJ /\ Last.err = "" /\ Last.x >= 1 /\ Last.x + 1 <= Len(disk[Jp].revlog)
 
@@ -196,9 +204,12 @@ JLogMatchesTx == JGood =>
 \* every input of every variant of the justice transaction passes the script interpreter against
 \* the outputs of the transaction the cheater actually held; same for second-level outputs
 JEngine == JGood =>
-  /\ \A r \in Range(Last.ins) : r.eng = 1 /\ r.eng2 = 1
+  /\ \A r \in Range(Last.ins) :
+        IF LeaseJusticeQuirk /\ r.k = 0 /\ HasCltv(Jp)
+        THEN r.eng = 0 /\ r.eng2 = 0
+        ELSE r.eng = 1 /\ r.eng2 = 1
   /\ Last.sl2 = 1 => /\ Len(Last.sl) = NHtlcOut(Jc, Jp, FALSE)
-                     /\ \A s \in Range(Last.sl) : s.eng = 1 /\ s.pk = 1
+                     /\ \A s \in Range(Last.sl) : s.eng = 1 /\ s.amt > 0
 
 -----------------------------------------------------------------------------
 (* the base invariants, not evaluated on observation lines (those carry no projection) *)
